@@ -230,6 +230,21 @@ def _containment_from_quantifier(n: ast.Call) -> ast.expr | None:
     return out
 
 
+_SPLIT_ALL_IFEXP = True     # X = A if c else B  ->  if c: X = A  else: X = B   (always the same thing; done for None sentinels)
+
+
+def _none_sentinel_ifexp(v: ast.IfExp) -> bool:
+    """`None if p is None else F(p)` / `a if x is None else x`: a conditional expression about a None sentinel, which the
+    path-condition logic reads better as statements"""
+    def is_none_c(e):
+        return isinstance(e, ast.Constant) and e.value is None
+    t = v.test
+    while isinstance(t, ast.UnaryOp) and isinstance(t.op, ast.Not):
+        t = t.operand
+    none_test = isinstance(t, ast.Compare) and len(t.ops) == 1 and isinstance(t.ops[0], (ast.Is, ast.IsNot)) and is_none_c(t.comparators[0])
+    return none_test and (is_none_c(v.body) or is_none_c(v.orelse) or isinstance(t.left, ast.Name))
+
+
 class _DropAnn(ast.NodeTransformer):
     """`x: T = v` inside functions -> `x = v` (annotation kept as `_ann`): annotations of locals have no run-time
     meaning, and rules should not depend on whether a local is annotated."""
@@ -390,7 +405,8 @@ class _DropAnn(ast.NodeTransformer):
         self.generic_visit(n)
         # label = "a" if c else "b"   ->   if c: label = "a"  else: label = "b"      (two constant texts chosen by a test)
         if self.depth > 0 and len(n.targets) == 1 and isinstance(n.targets[0], ast.Name) and isinstance(n.value, ast.IfExp) \
-                and all(isinstance(x, ast.Constant) and isinstance(x.value, str) for x in (n.value.body, n.value.orelse)):
+                and (all(isinstance(x, ast.Constant) and isinstance(x.value, str) for x in (n.value.body, n.value.orelse))
+                     or (_SPLIT_ALL_IFEXP and _none_sentinel_ifexp(n.value))):
             import copy as _copy
             a = ast.copy_location(ast.Assign([_copy.deepcopy(n.targets[0])], n.value.body), n)
             b = ast.copy_location(ast.Assign([_copy.deepcopy(n.targets[0])], n.value.orelse), n)
@@ -563,6 +579,25 @@ class _DropAnn(ast.NodeTransformer):
                 if hasattr(y, "lineno"):
                     y.lineno = y.end_lineno = n.lineno
             return a
+        # D.update({x: E(x) for x in xs if x not in D})  ->  for x in xs: if x not in D: D[x] = E(x)   (the key is the loop
+        # variable itself, so an entry written earlier in the loop can only make a later, equal key be skipped)
+        c = n.value
+        if self.depth > 0 and isinstance(c, ast.Call) and isinstance(c.func, ast.Attribute) and c.func.attr == "update" \
+                and isinstance(c.func.value, ast.Name) and len(c.args) == 1 and not c.keywords and isinstance(c.args[0], ast.DictComp) \
+                and len(c.args[0].generators) == 1 and not c.args[0].generators[0].is_async \
+                and isinstance(c.args[0].generators[0].target, ast.Name) and isinstance(c.args[0].key, ast.Name) \
+                and c.args[0].key.id == c.args[0].generators[0].target.id:
+            dc = c.args[0]
+            D = c.func.value.id
+            self.cc = getattr(self, "cc", [0])
+            out = _lower_comp(dc, lambda kv: ast.Assign([ast.Subscript(ast.Name(D, ast.Load()), kv[0], ast.Store())], kv[1]), self.cc)
+            for st in out:
+                ast.copy_location(st, n)
+                ast.fix_missing_locations(st)
+                for y in ast.walk(st):
+                    if hasattr(y, "lineno"):
+                        y.lineno = y.end_lineno = n.lineno
+            return out
         # D.update(a=1, b=2) / D.update({"a": 1, "b": 2})  ->  D["a"] = 1; D["b"] = 2
         c = n.value
         if self.depth > 0 and isinstance(c, ast.Call) and isinstance(c.func, ast.Attribute) and c.func.attr == "update" \
@@ -620,6 +655,54 @@ def _count(what: str, n) -> None:
     n = int(n) if not isinstance(n, bool) else (1 if n else 0)
     if n:
         LOCAL_REWRITES[what] = LOCAL_REWRITES.get(what, 0) + n
+
+
+def _split_joined_adds(fn: ast.FunctionDef) -> int:
+    """`rules = []` ... `rules.append(X)` ... `ctl.add("base", [], "\n".join(rules))` (the list has no other use): every
+    append is the add of that piece -- a logic program is the concatenation of what was added, in order."""
+    import copy as _copy
+    count = 0
+    inits = [st for st in fn.body if isinstance(st, (ast.Assign, ast.AnnAssign)) and getattr(st, "value", None) is not None
+             and isinstance(st.value, ast.List) and not st.value.elts
+             and isinstance(st.targets[0] if isinstance(st, ast.Assign) else st.target, ast.Name)]
+    for init in inits:
+        R = (init.targets[0] if isinstance(init, ast.Assign) else init.target).id
+        uses = [y for y in ast.walk(fn) if isinstance(y, ast.Name) and y.id == R]
+        apps = [c for c in ast.walk(fn) if isinstance(c, ast.Call) and isinstance(c.func, ast.Attribute) and c.func.attr == "append"
+                and isinstance(c.func.value, ast.Name) and c.func.value.id == R and len(c.args) == 1]
+        joins = [c for c in ast.walk(fn) if isinstance(c, ast.Call) and isinstance(c.func, ast.Attribute) and c.func.attr == "join"
+                 and isinstance(c.func.value, ast.Constant) and isinstance(c.func.value.value, str) and c.func.value.value.strip() == ""
+                 and len(c.args) == 1 and isinstance(c.args[0], ast.Name) and c.args[0].id == R]
+        if len(joins) != 1 or not apps or len(uses) != 1 + len(apps) + 1:
+            continue
+        # the join is the program argument of an `X.add(name, params, <join>)` statement of the function body
+        adds = [st for st in fn.body if isinstance(st, ast.Expr) and isinstance(st.value, ast.Call) and isinstance(st.value.func, ast.Attribute)
+                and st.value.func.attr == "add" and len(st.value.args) == 3 and st.value.args[2] is joins[0]]
+        if len(adds) != 1:
+            continue
+        tmpl = adds[0].value
+
+        class RW(ast.NodeTransformer):
+            def visit_Expr(self, st):
+                c = st.value
+                if isinstance(c, ast.Call) and c in apps:
+                    new = _copy.deepcopy(tmpl)
+                    new.args[2] = c.args[0]
+                    out = ast.Expr(new)
+                    ast.copy_location(out, st)
+                    for y in ast.walk(out):
+                        if hasattr(y, "lineno"):
+                            y.lineno = y.end_lineno = st.lineno
+                    return out
+                return self.generic_visit(st)
+        if not all(any(isinstance(st, ast.Expr) and st.value is c for st in ast.walk(fn)) for c in apps):
+            continue
+        RW().visit(fn)
+        fn.body = [ast.copy_location(ast.Pass(), st) if st is adds[0] or st is init else st for st in fn.body]
+        count += 1
+    if count:
+        ast.fix_missing_locations(fn)
+    return count
 
 
 def _merge_complementary_ifs(fn: ast.FunctionDef) -> int:
@@ -810,6 +893,7 @@ def _drop_local_annotations(tree: ast.Module) -> None:
     for x in ast.walk(tree):
         if isinstance(x, ast.FunctionDef):
             _count("complementary_ifs_merged", _merge_complementary_ifs(x))
+            _count("joined_program_texts_split", _split_joined_adds(x))
             _count("dag_view_aliases", _inline_dag_view_aliases(x))
             _count("quantifiers_over_literal_tuples", _unroll_literal_quantifiers(x))
     for x in ast.walk(tree):
